@@ -27,52 +27,70 @@ from .c01 import balance_check
 
 ID = 'C09'
 LEVEL = 'exploration'
-CASES = {'quick': 4000, 'thorough': 120000}
+CASES = {'quick': 3200, 'thorough': 60000}
+SHRINK_BUDGET = {'quick': 45, 'thorough': 240}
 CASE_TIMEOUT = 40
 TECHNIQUE = ('property-based testing (Hypothesis): (a) generated networks with closures and open/close schedules '
              'simulated with WNTRSimulator, every reported row judged against an own breadth-first reachability over the '
              'reported link statuses (reference model) plus the C01 conservation oracle; (b) differential test of the '
              'C++ reachability search and of the incrementally maintained adjacency against the same BFS')
-RULE = ('sim cases (about 1 in 6): netgen networks (2-8 junctions, thorough to 14; spanning tree + loops, 1-3 sources, '
-        'tanks, pumps, valves, CV pipes, leaks, DD or PDD) post-processed: junction elevations >= 0.5 m, 0-2 dead-end '
-        'branches, 0-3 extra parallel links (same or opposite direction, also on pump/valve pairs, also triples), '
-        'each pipe initially closed with probability 1/8, 0-2 targeted closures (a bridge of the junction tree, '
-        'one or all links of a parallel pair), 0-4 open/close toggle schedules on links (times on the hydraulic grid '
-        'or off it by 1 s..hyd-1 s, valves also get ACTIVE), report step ALL in 3 of 4 cases. graph cases: 2-12 nodes, '
-        '1-3 sources, 1-18 links with up to 4 links per node pair in either direction and random statuses '
-        '(closed/open/active), 0-4 rounds of 1-3 status changes; via csr (direct call, rows in sorted or shuffled '
-        'order) or via wn (simulator-maintained adjacency). Enumerated part: all 3-node multigraphs with up to 2 links '
-        'per pair and every open/closed pattern (via wn) and 8 hand-built simulation scenarios (parallel pair closed '
-        'one by one and reopened, dead end cut and reconnected off-grid, valve closed/active, pump outage). '
-        'Non-trivial: sim = converged run in which some junction is cut off in some reported row and some junction is '
-        'reachable; graph = some non-source node unreachable and some reachable in some round. '
+RULE = ('sim cases (1 in 4): netgen networks (2-8 junctions, thorough to 14; spanning tree + loops, 1-3 sources, tanks, '
+        'pumps, valves, CV pipes, leaks, DD or PDD; most power pumps / PSVs replaced by head pumps / TCVs to keep ordinary '
+        'non-convergence rare) post-processed: junction elevations |z| >= 0.5 m, in 2 of 5 cases the whole network lowered '
+        'by 45 or 130 m (negative elevations and heads), 0-2 dead-end branches of 1-2 junctions behind a pipe, a check-valve '
+        'pipe, a small booster or a PRV/PSV/FCV in either direction, 0-3 extra parallel links (same or opposite direction, '
+        'also on pump/valve pairs, also triples), each pipe initially closed with probability 1/8, 0-2 targeted closures '
+        '(a junction-junction pipe, one or all links of a parallel pair, staggered schedules on a pair), 0-4 open/close '
+        'toggle schedules on links (instants on the hydraulic grid or off it by 1 s..hyd-1 s; valves also get ACTIVE), '
+        'report step ALL in 3 of 4 cases, 1 in 5 longer runs paused on the grid and continued with a new simulator object. '
+        'graph cases: 2-12 nodes (thorough 30), 1-3 sources, tree + up to 8 extra links with up to 4 links per node pair '
+        'in either direction, statuses closed/open/active, 0-4 rounds of 1-3 status changes; via csr (direct call of the '
+        'C++ search, rows in sorted or rotated order) or via wn (simulator-maintained adjacency of a pipes/valves model). '
+        'Enumerated part: all multigraphs on 1 source + 2 junctions with 0-2 links per pair and every open/closed pattern '
+        '(via wn and csr, followed by two rounds of changes) and 12 hand-built simulation scenarios (parallel pair closed '
+        'one by one and reopened, dead end cut and reconnected off-grid, every junction cut off, PRV closed/active, pump '
+        'outage, PRV and CV inside the cut-off part, draining tank as last source, the same paused). '
+        'Non-trivial: sim = run in which some junction is cut off in some reported row and some junction is reachable in '
+        'some row; graph = some non-source node unreachable and some reachable in some round. '
         'Distinct = SHA-1 of the case.')
 ASSUMPTIONS = [
     'a link counts as closed in a reported row iff its reported status is 0 (LinkStatus.Closed); Open (1) and Active (2) '
-    'are non-closed, whoever set them (user, control, check valve, pump or valve logic)',
+    'are non-closed, whoever set them (user, control, check valve, pump or valve logic, tank limits)',
+    'initial statuses are applied with wn.reset_initial_values() before simulating (add_valve/add_pump only store '
+    'initial_status; same convention as C02)',
     'for a cut-off junction the statement names demand, pressure and flow; head and leak_demand are not judged there '
     '(leak_demand enters the node balance of the C01 oracle only)',
     'for a reachable junction "not treated as isolated" is observed as reported pressure = reported head - spec '
-    'elevation with elevation >= 0.5 m (a zeroed row has head = pressure = 0), DD demand = sum base*pattern*multiplier, '
+    'elevation with |elevation| >= 0.5 m (a zeroed row has head = pressure = 0), DD demand = sum base*pattern*multiplier, '
     'and node balance (C01 oracle) at every node',
-    'a run that WNTR reports as not converged is inconclusive unless the same network with the cut-off part removed '
-    '(static closures, failure at the first instant) converges; the reported prefix is always judged',
+    'a run that stops (solver not converged / maximum number of trials) is repeated with every step reported; C = the '
+    'junctions flagged isolated in the last solved trial or cut off by the link statuses the model is left with (the two '
+    'alternating states of a status flip-flop). It is a violation only if it stopped by exceeding the number of trials, C '
+    'was cut off in every reported row before, and the same network without C and its links converges for the whole '
+    'duration, takes the same steps and solves the failing instant (or no junction is left). A Newton failure is '
+    'inconclusive even then (warm start vs cold start is not decidable from outside); everything else is inconclusive; '
+    'the reported prefix is always judged',
     'an exception out of run_sim is a violation only if a part is cut off by the user-level statuses and the twin '
     'network with all links open and no controls runs without that exception',
+    'negative elevations and heads are inside the input domain (the elevation datum is arbitrary; the bundled Net3 has '
+    'junctions below 0)',
     'no two controls act on the same link at the same instant (order would be ambiguous)',
     'graph mode: data values are flags 0/1 (what _initialize/_update_internal_graph guarantee), node_indicator starts '
-    'as all ones, every node has at least one link',
+    'as all ones, every node has at least one link; via wn drives the private sequence of run_sim up to the first solve '
+    '(_get_control_managers, _register_controls_with_observers, _initialize_internal_graph, _update_internal_graph), the '
+    'anchors named in properties.jsonl',
 ]
 TOLERANCES = {'zero_demand': 'exactly 0 (|x| <= 1e-15)', 'zero_pressure': 'exactly 0 (|x| <= 1e-12 m)',
               'zero_flow': '1.05e-6 m3/s (NewtonSolver TOL: a closed link is held by the constraint flow = 0)',
               'head_pressure_elevation': '1e-9*(1+|head|) m',
               'dd_demand_rel': 1e-12, 'junction_balance_abs': '1.05e-6 + 1e-9*sum|q| (as C01)',
               'tank_reservoir_balance': '1e-9*(1+sum|q|) (as C01)'}
-LEVEL_TEXT = ('exploration: some hundred simulated networks and some thousand reachability graphs per seed (quick); '
+LEVEL_TEXT = ('exploration: about a thousand simulated networks and three thousand reachability graphs per seed (quick); '
               'all 3-node multigraphs with <= 2 links per pair are enumerated; no exhaustiveness claim beyond that')
 LEVEL_NOTE = ('trusted base: vlib.spec.reachable_from_sources (12-line BFS), the CSR lay-out and status bookkeeping in '
               'this file, vlib.spec builders, the C01 balance evaluator; link statuses are taken from the reported '
-              'results, topology and elevations from the generated spec')
+              'results, topology and elevations from the generated spec; for stopped runs the statuses and isolation '
+              'flags the model is left with are read as evidence of which part was cut off')
 EXHAUSTIVE = {'quick': False, 'thorough': False,
               'what': 'graph mode enumerates all multigraphs on 1 source + 2 junctions with 0-2 links per node pair and '
                       'every open/closed assignment; everything else is sampled'}
@@ -81,7 +99,7 @@ FEAT = {'nj': (2, 8), 'tanks': (0, 2), 'extra_res': (0, 1), 'pumps': True, 'valv
         'closed': True, 'leaks': True, 'tank_leaks': True, 'vol_curves': False, 'tank_links_special': True,
         'booster': True, 'wild': 0.0, 'max_extra_links': 3, 'hyd_steps': [900, 1800, 3600],
         'durations': [0, 3600, 2 * 3600, 3 * 3600, 4 * 3600, 6 * 3600]}
-SIM_SHARE = 1
+SIM_SHARE = 4
 ZQ = 1.05e-6
 
 
@@ -340,7 +358,7 @@ def check_sim(case):
                         % (e, {t: sorted(v) for t, v in ucut.items() if v}, where), tags)
         if len(run.times) == 0:
             if pi == 0 or not run.ok:
-                return _judge_failed_first_step(spec, run, ucut, hw, tags, len(parts) > 1)
+                return _judge_failed_first_step(spec, run, ucut, hw, tags, len(parts) > 1, wn)
             continue
         bad, st_ = judge_rows(spec, run, tags)
         for k, v in st_.items():
@@ -352,12 +370,12 @@ def check_sim(case):
             return fail(bal[0], bal[1] + ' [user-level cut sets %s]%s'
                         % ({t: sorted(v) for t, v in ucut.items() if v}, where), tags)
         if not run.ok:
-            return _judge_failed_first_step(spec, run, ucut, hw, tags, len(parts) > 1)
+            return _judge_failed_first_step(spec, run, ucut, hw, tags, len(parts) > 1, wn)
     nontrivial = stats.get('iso_junction_rows', 0) > 0 and stats.get('reach_rows', 0) > 0
     return passed(nontrivial, tags)
 
 
-def _closing_kinds(spec, cut, tf):
+def _closing_kinds(spec, cut, tf, wn=None):
     """kinds of the links that separate the cut-off part without being closed by the user-level statuses, i.e. the
     links whose own status logic (check valve, pump, regulating valve, tank limits) takes part in the cut"""
     kinds = set()
@@ -368,6 +386,13 @@ def _closing_kinds(spec, cut, tf):
             continue
         if kind == 'pipe':
             k = 'cv' if l.get('cv') else ('tank_link' if (a in tanks or b in tanks) else 'pipe')
+            if k == 'tank_link' and wn is not None:      # which limit of the tank is involved
+                tk = [t for t in spec['tanks'] if t['name'] in (a, b)][0]
+                try:
+                    lvl = float(wn.get_node(tk['name']).head) - tk['elev']
+                    k = 'tank_link_full' if lvl >= tk['max'] - 1e-3 else ('tank_link_empty' if lvl <= tk['min'] + 1e-3 else k)
+                except Exception:
+                    pass
         elif kind == 'valve':
             k = l['type'].lower()
         else:
@@ -376,7 +401,7 @@ def _closing_kinds(spec, cut, tf):
     return sorted(kinds)
 
 
-def _judge_failed_first_step(spec, run, ucut, hw, tags, paused=False):
+def _judge_failed_first_step(spec, run, ucut, hw, tags, paused=False, wn0=None):
     """A run that stopped early: is it only because a part is cut off?
 
     The run is repeated with every step reported.  C = the junctions that were cut off in the last solved trial
@@ -390,8 +415,11 @@ def _judge_failed_first_step(spec, run, ucut, hw, tags, paused=False):
         return inconclusive('not converged (no failure time)', tags)
     full = copy.deepcopy(spec)     # (a paused run is judged by its uninterrupted twin)
     full['opts']['rep'] = 'ALL'
-    wn = _build(full)
-    rf = S.run_wntr(wn, hw_approx=hw)
+    if spec['opts']['rep'] == 'ALL' and not paused and wn0 is not None:
+        wn, rf = wn0, run
+    else:
+        wn = _build(full)
+        rf = S.run_wntr(wn, hw_approx=hw)
     tf = failure_time(rf) if rf.exception is None else None
     if rf.exception is not None or rf.ok or tf is None:
         return inconclusive('not converged (not reproduced with every step reported)', tags)
@@ -408,32 +436,40 @@ def _judge_failed_first_step(spec, run, ucut, hw, tags, paused=False):
     if not cut:
         return inconclusive('not converged, nothing cut off (reported prefix satisfied the oracle)', tags)
     tags.add('not_converged_with_cut_off_part')
-    if len(cut) == len(jn):
-        return inconclusive('not converged, every junction cut off', tags)
     stt = rf.link['status'] if len(rf.times) else {}
     for k in range(len(rf.times)):
         r_k = S.reachable_from_sources(spec, set(n for n in stt if stt[n][k] == 0))
         if any(n in r_k for n in cut):
             return inconclusive('not converged, cut-off part changes before the failure (reported prefix satisfied '
                                 'the oracle)', tags)
-    red = reduced_spec(full, cut)
-    rr = S.run_wntr(_build(red), hw_approx=hw)
-    if rr.exception is not None or not rr.ok:
-        return inconclusive('not converged, the rest alone does not converge either', tags)
-    before = [t for t in rr.times if t < tf]
-    if list(rf.times) != before or tf not in list(rr.times):
-        return inconclusive('not converged, the rest alone takes other steps', tags)
-    kinds = _closing_kinds(spec, cut, tf)
+    if len(cut) == len(jn):
+        before = [float(t) for t in rf.times]
+        rest = 'no junction is left to solve'
+        if kind == 'solver':
+            return inconclusive('Newton did not converge with every junction cut off', tags)
+    else:
+        red = reduced_spec(full, cut)
+        rr = S.run_wntr(_build(red), hw_approx=hw)
+        if rr.exception is not None or not rr.ok:
+            return inconclusive('not converged, the rest alone does not converge either', tags)
+        before = [float(t) for t in rr.times if t < tf]
+        if [float(t) for t in rf.times] != before or tf not in list(rr.times):
+            return inconclusive('not converged, the rest alone takes other steps', tags)
+        rest = ('the same network without these junctions and their links takes the same steps, solves t=%s and '
+                'converges for the whole duration' % tf)
+    kinds = _closing_kinds(spec, cut, tf, wn)
     if kind == 'solver':
         # Newton started from the solution of the previous trial / step; the rest alone starts cold.  That is a
         # difference of the numerical start, not of the isolation logic: not decidable from outside.
         return inconclusive('Newton did not converge with a part cut off, the rest alone converges from a cold start',
                             tags)
-    return fail('rest_not_solved/%s/%s' % (kind, '+'.join(kinds) or 'user_closed'),
+    order = ['cv', 'pump', 'prv', 'psv', 'fcv', 'tank_link_empty', 'tank_link_full', 'tank_link']
+    main = ([k for k in order if k in kinds] or ['user_closed'])[0]
+    return fail('rest_not_solved/%s/%s' % (kind, main),
                 'the run stopped at t=%s (%s) while junctions %s are cut off from every source (cut off in every '
-                'reported row before; separating links %s; statuses left in the model: closed %s); the same network '
-                'without these junctions and their links takes the same steps %s, solves t=%s and converges for '
-                'the whole duration' % (tf, msg, sorted(cut), kinds, sorted(closed), before, tf), tags)
+                'reported row before, steps %s; links separating them that the user-level statuses leave open: %s; '
+                'statuses left in the model: closed %s); %s'
+                % (tf, msg, sorted(cut), before, kinds, sorted(closed), rest), tags)
 
 
 # ----------------------------------------------------------------------------------------- sim generator
@@ -454,7 +490,7 @@ def sim_case(draw, tier='quick'):
     # keep ordinary non-convergence rare: most power pumps become head pumps, most PSVs become TCVs
     qtot = sum(d[0] for j in spec['junctions'] for d in j['demands'])
     for p in spec['pumps']:
-        if p['type'] == 'POWER' and draw(st.integers(0, 7)) != 0:
+        if p['type'] == 'POWER' and draw(st.integers(0, 15)) != 0:
             cname = 'HC%d' % (len(spec['curves']) + 1)
             spec['curves'][cname] = {'type': 'HEAD', 'pts': [[_r(max(qtot * 1.5, 0.003), 5), 70.0]]}
             p.update(type='HEAD', power=None, curve=cname)
@@ -680,6 +716,8 @@ def check_graph(case):
     else:
         try:
             runner = _WnGraph(n, sources, links, rounds)
+        except AttributeError:
+            raise       # the private sequence of run_sim this variant drives has changed: a harness matter
         except Exception as e:
             return fail(exc_bucket(e, 'graph_setup'), 'setting up the simulator adjacency for %r raised %r' % (case, e), tags)
     some_cut = some_reached = False
@@ -695,6 +733,8 @@ def check_graph(case):
                 got = _csr_search(np, dt, check_for_isolated_junctions, n, sources, links, status, order)
             else:
                 got = runner.step(ri, status)
+        except AssertionError:
+            raise       # bookkeeping of this harness disagrees with the model: a harness matter
         except Exception as e:
             return fail(exc_bucket(e, 'graph_search'), 'round %d of %r raised %r' % (ri, case, e), tags)
         iso_want = [i for i in range(n) if i not in want]
